@@ -299,6 +299,8 @@ func emitFmt(g *core.G, ctx sx.Sexp, v sx.Sexp) {
 		in = modelled(v, []entry{{key: "self", n: n}}, false)
 	case "map":
 		in = mapValid(ctx) && modelled(v, entriesOfNoType(ctx.Args()), false)
+	case "mmap":
+		in = mapValid(ctx) && mergedModelled(v, entriesOfNoType(ctx.Args()))
 	}
 	line := "fmt " + ctx.String() + " " + v.String()
 	if !in {
@@ -308,6 +310,46 @@ func emitFmt(g *core.G, ctx sx.Sexp, v sx.Sexp) {
 		line = "@" + line
 	}
 	g.Emit(line)
+}
+
+// mergedModelled: which format applies where is decided by the merge, so the condition is global — no float value, text
+// that is valid UTF-8, and no directive with a float letter anywhere in the user's map (an Integer under %e is a float)
+func mergedModelled(v sx.Sexp, m []entry) bool {
+	var okv func(e sx.Sexp) bool
+	okv = func(e sx.Sexp) bool {
+		switch e.Tag() {
+		case "f":
+			return false
+		case "s", "r":
+			return utf8.ValidString(e.Args()[0].MustStr()) && (e.Tag() == "r" || caseModelled(e.Args()[0].MustStr()))
+		case "a":
+			for _, k := range e.Args() {
+				if !okv(k) {
+					return false
+				}
+			}
+		case "h":
+			for _, kv := range e.Args() {
+				if !okv(kv.List[0]) || !okv(kv.List[1]) {
+					return false
+				}
+			}
+		}
+		return true
+	}
+	var okm func(m []entry) bool
+	okm = func(m []entry) bool {
+		for _, e := range m {
+			if e.n.d.ok && strings.IndexByte("eEfgG", e.n.d.letter) >= 0 {
+				return false
+			}
+			if e.n.hasCf && !okm(e.n.cf) {
+				return false
+			}
+		}
+		return true
+	}
+	return okv(v) && okm(m) && mmapInModel(m, 1)
 }
 
 // a map with an invalid directive anywhere raises while the map is built; the model parses lazily — keep those impl-only
@@ -498,6 +540,31 @@ func randMapCtx(r *rand.Rand) sx.Sexp {
 	return sx.T("map", es.List...)
 }
 
+// randMergedCtx: a user map as new(String, v, map) takes it — 1 to 4 distinct keys out of all 16 (the defaults' own keys
+// among them on purpose: an entry with a default's key is MERGED with it), container entries with string_formats
+func randMergedCtx(r *rand.Rand) sx.Sexp {
+	n := 1 + r.Intn(4)
+	xs := []sx.Sexp{}
+	seen := map[string]bool{}
+	pool := allKeyNames
+	if r.Intn(2) == 0 {
+		pool = []string{"arr", "hash", "any", "numeric", "int", "str", "scalar", "coll", "float", "bin"}
+	}
+	for i := 0; i < n; i++ {
+		k := pool[r.Intn(len(pool))]
+		if seen[k] {
+			continue
+		}
+		seen[k] = true
+		key := k
+		if k == "object" || k == "type" {
+			key = "any"
+		}
+		xs = append(xs, sx.L(sx.A(k), randNode(r, key, 2)))
+	}
+	return sx.T("mmap", xs...)
+}
+
 // ---- generator ---------------------------------------------------------------------------------------------------------------
 
 func gen(g *core.G) {
@@ -606,6 +673,68 @@ func gen(g *core.G) {
 			v = randScalar(r)
 		}
 		emitFmt(g, randMapCtx(r), v)
+	}
+
+	// (3a) per-type format maps as the String constructor takes them: merged with the defaults (mergeFormats)
+	for _, a := range allKeyNames {
+		for _, b := range allKeyNames {
+			g.Emit("keysub " + a + " " + b)
+		}
+	}
+	n = 2500
+	if g.Thorough() {
+		n = 50000
+	}
+	for i := 0; i < n; i++ {
+		v := conts[r.Intn(len(conts))]
+		switch r.Intn(4) {
+		case 0:
+			v = randValue(r, 3)
+		case 1:
+			v = randScalar(r)
+		}
+		emitFmt(g, randMergedCtx(r), v)
+	}
+
+	// (3a') the element formats of a container entry REFINE the defaults: string_formats that cover only some (or none) of the
+	// element kinds of a flat container — the uncovered elements keep the default element formats
+	elemKeys := []string{"int", "str", "bool", "numeric", "bin", "undef", "regexp"}
+	n = 400 * g.Scale
+	for i := 0; i < n; i++ {
+		ck := []string{"arr", "arr", "hash", "coll", "any"}[r.Intn(5)]
+		letter := "a"
+		if ck == "hash" {
+			letter = "h"
+		} else if ck != "arr" {
+			letter = "p"
+		}
+		var cfs []sx.Sexp
+		seen := map[string]bool{}
+		for j := r.Intn(3); j > 0; j-- {
+			k := elemKeys[r.Intn(len(elemKeys))]
+			if !seen[k] {
+				seen[k] = true
+				cfs = append(cfs, sx.L(sx.A(k), randNode(r, k, 0)))
+			}
+		}
+		node := sx.L(sx.Str("%"+letter), sx.A("-"), sx.A("-"), sx.L(cfs...))
+		var elems []sx.Sexp
+		for j := 1 + r.Intn(4); j > 0; j-- {
+			e := randScalar(r)
+			if e.Tag() == "f" {
+				e = vi(int64(r.Intn(300)))
+			}
+			elems = append(elems, e)
+		}
+		v := va(elems...)
+		if ck == "hash" || (ck != "arr" && r.Intn(2) == 0) {
+			var kvs []sx.Sexp
+			for j, e := range elems {
+				kvs = append(kvs, vs(fmt.Sprintf("k%d", j)), e)
+			}
+			v = vh(kvs...)
+		}
+		emitFmt(g, sx.T("mmap", sx.L(sx.A(ck), node)), v)
 	}
 
 	// (3b) radix renderings read back with the Integer constructor: new(Integer, text, radix)
